@@ -26,7 +26,7 @@ ASSUMPTIONS = [
     "non-termination is approximated by a 10 s wall-clock guard per byte string (normal decode time << 1 ms), confirmed with 30 s before it is reported",
     "truncation clause only for descriptions without dynamic-length objects; 'value-carrying' = bits claimed by a parameter in the reference's used mask",
 ]
-MUST_HIT = ["layer-case", "prefix", "mutation", "short", "random", "overlong", "entry:obj", "entry:layer", "entry:service",
+MUST_HIT = ["truncation-inside-field-item", "layer-case", "prefix", "mutation", "short", "random", "overlong", "entry:obj", "entry:layer", "entry:service",
             "entry:decode_response", "regime:error", "regime:default", "outcome:DecodeError", "outcome:returned",
             "truncation-clause", "somersault"]
 DYNAMIC = {"dct:minmax", "dct:leading", "dct:paramlen", "dlfield", "eopf", "mux", "emfield", "table"}
@@ -74,7 +74,7 @@ def probe(ld, case, data: bytes, regime: str, cls: set, lv=None) -> list:
             try:
                 r = fn()
                 cls.add("outcome:returned")
-                if name == "obj" and lv is not None and len(data) < lv:
+                if name == "obj" and lv is not None and (len(data) < lv if lv >= 0 else True):
                     fails.append(_fail("truncated-accepted", f"{data.hex()} ({len(data)} bytes, description needs {lv}) "
                                                              f"decoded to {r!r}", dict(case, data=data.hex(), regime=regime)))
             except DecodeError:
@@ -138,6 +138,17 @@ def eval_case(case, res: core.ShardResult | None = None, kf=None, budget: int = 
     if ref is not None and not (feats & DYNAMIC):
         idx = [i for i, u in enumerate(ref.used) if u]
         lv = (idx[-1] + 1) if idx else None
+    # an end-of-pdu field of fixed-size items at the end of an otherwise static message: a PDU that ends inside
+    # an item ends "before the last described parameter" of that item
+    eopf_tail = None
+    lastp = case["msg"]["params"][-1] if case["msg"]["params"] else None
+    if ref is not None and lastp is not None and lastp["pk"] == "value" and lastp["dop"]["k"] == "eopf" \
+            and (lastp["dop"].get("isz") or 0) >= 2 \
+            and isinstance(case["values"].get(lastp["name"]), list) and "last-listed-not-last" not in feats:
+        isz = lastp["dop"]["isz"]
+        start = len(pdu) - isz * len(case["values"][lastp["name"]])
+        if start >= 0:
+            eopf_tail = (start, isz)
     consts = [p["v"] & 0xFF for p in case["msg"]["params"] if p["pk"] == "const" and isinstance(p["v"], int)]
     constlen = len(consts)
     fails: list = []
@@ -154,8 +165,15 @@ def eval_case(case, res: core.ShardResult | None = None, kf=None, budget: int = 
             cls = {kind, "regime:" + regime}
             if lv is not None and len(data) < lv:
                 cls.add("truncation-clause")
-            c2 = dict(case, lv=lv) if lv is not None else case
-            fs = probe(ld, c2, data, regime, cls, lv)
+            lv2 = lv
+            if eopf_tail and kind == "prefix" and len(data) > eopf_tail[0] and (len(data) - eopf_tail[0]) % eopf_tail[1]:
+                # ... unless only padding of the item (BYTE-SIZE, gaps) is missing
+                item_end = eopf_tail[0] + ((len(data) - eopf_tail[0]) // eopf_tail[1] + 1) * eopf_tail[1]
+                if any(ref.used[len(data):item_end]):
+                    cls.add("truncation-inside-field-item")
+                    lv2 = -1      # must be rejected whatever its length
+            c2 = dict(case, lv=lv2) if lv2 is not None else case
+            fs = probe(ld, c2, data, regime, cls, lv2)
             if res is not None:
                 nt = data != pdu and (kind == "prefix" or len(data) >= constlen)
                 res.note({"msg_digest": core.digest(case["msg"]).hex(), "data": data.hex(), "kind": kind}, nt, cls,
